@@ -645,4 +645,160 @@ def firstRowDecides : List (String × List Val) → Bool
       | c0 :: _ => if isList c0 then col.all isList else col.all (fun c => !isList c))
     && firstRowDecides cs
 
+/-! ### [phase 5] the four tables the statement demands, as `Table` exposes them (column order + `Missing` padding) -/
+
+/-- `Table.insert` is only called for a non-empty list of rows -/
+def nonEmptyGroup (rows : List Row) : List (List Row) := if rows.isEmpty then [] else [rows]
+
+/-- the groups of rows inserted into the interactions table: per triple in id order its specified rows; a triple that
+yielded no row inserts nothing -/
+def specGroups (rnd : Rat → Rat) (txs : List Tx) : List (List Row) :=
+  ((sortBy ltTriP (t4sOf txs)).map (specRowsOf rnd)).filter (fun g => !g.isEmpty)
+
+/-- the padded tables (environments, learners, evaluators, interactions) a log of `txs` must show -/
+def specTables (rnd : Rat → Rat) (txs : List Tx) : List PTable :=
+  [padTable [idColName .E] (nonEmptyGroup (specParams rnd .E txs)),
+   padTable [idColName .L] (nonEmptyGroup (specParams rnd .L txs)),
+   padTable [idColName .V] (nonEmptyGroup (specParams rnd .V txs)),
+   padTable idCols (specGroups rnd txs)]
+
+/-- no element twice -/
+def nodupB {α} [DecidableEq α] : List α → Bool
+  | [] => true
+  | x :: xs => decide (x ∉ xs) && nodupB xs
+
+/-- [phase 5] executable test for `CleanRun` (sound: `cleanRunB_sound`); the driver reports it so that the harness knows on
+which cases the clean-run theorems apply -/
+def cleanRunB (txs : List Tx) : Bool :=
+  txs.all (fun t => match t with | .t0 _ => false | _ => true)
+  && (t4sOf txs).all (fun ir => decide (ir.1.length = 3))
+  && nodupB ((t4sOf txs).map (·.1))
+  && [Tbl.E, Tbl.L, Tbl.V].all (fun t => nodupB ((paramsOf t txs).map (·.1))
+      && (paramsOf t txs).all (fun ip => nodupB (ip.2.map (·.1.json)) && decide (idColName t ∉ ip.2.map (·.1.json))))
+
+/-! ### [phase 5] `Result.__init__`: the caches built from `to_dicts()` and the learners' `full_name` -/
+
+/-- the cell of a padded row under column `c` as `to_dicts()` shows it; `none`: `Missing` (or no such column) -/
+def cellAt (cols : List String) (cells : List (Option Val)) (c : String) : Option Val :=
+  match (cols.zip cells).lookup c with
+  | some (some v) => some v
+  | _ => none
+
+/-- what `full_name` is made of (the text itself is Python's `str` of these values, rendered by the harness):
+`f"{lrn_id}. {family}{params}"`, or `f"{lrn_id}. {family}({args}, seed={seed})"` when `vw` -/
+structure FullName where
+  id : Val                        -- `value['learner_id']`
+  family : Option (Option Val)    -- `value.get('family', lrn_id)`: `none` no such column (→ `lrn_id`), `some none` the cell is `Missing`
+  params : List (String × Val)    -- the `k=v` parts, in column order
+  vw : Bool                       -- `family == 'vw'` and `args`, `seed` present
+  deriving Repr, Inhabited
+
+/-- `[f'{k}={v}' for k,v in value.items() if k and k not in ['family','learner_id'] and v is not Missing]` -/
+def nameParams (cols : List String) (get : String → Option Val) : List (String × Val) :=
+  cols.filterMap (fun c => if c = "" ∨ c = "family" ∨ c = "learner_id" then none else (get c).map (fun v => (c, v)))
+
+def fullNameOf (cols : List String) (get : String → Option Val) : Option FullName :=
+  match get "learner_id" with
+  | none => none            -- `value['learner_id']` raises KeyError (never for a table made by TransactionResult)
+  | some id => some {
+      id := id
+      family := if cols.contains "family" then some (get "family") else none
+      params := nameParams cols get
+      vw := (match get "family" with | some (.str s) => s == "vw" | _ => false) && (get "args").isSome && (get "seed").isSome }
+
+/-- the `full_name` ingredients of every row of the learners table, in table order (`_lrn_cache` is keyed by `learner_id`) -/
+def lrnNames (t : PTable) : List (Option FullName) :=
+  t.rows.map (fun cells => fullNameOf t.columns (cellAt t.columns cells))
+
+/-! ### [phase 5] the record-writing code of `TransactionEncode` and the record-reading code of `TransactionResult` as tables (tag → shape) -/
+
+/-- one element of a log line after its tag -/
+inductive Slot where
+  | id (i : Int) | ids (l : List Int) | dict (d : Row) | packed (p : Packed)
+  deriving Repr, Inhabited
+
+/-- a log line `[tag, slot, …]` -/
+structure Line where
+  tag : String
+  slots : List Slot
+  deriving Repr, Inhabited
+
+def txTag : Tx → String
+  | .t0 _ => "T0" | .t1 _ _ => "T1" | .t2 _ _ => "T2" | .t3 _ _ => "T3" | .t4 _ _ => "T4"
+
+/-- what the encoder writes for an element of the list it hands to `encoder`: `item[1]` / `item[2]` (through `minimize` and json) or
+`packed` (the column dictionary it has built from `item[2]`) -/
+def txSlot (rnd : Rat → Rat) (fixed : Bool) (tx : Tx) (src : String) : Option Slot :=
+  match tx with
+  | .t0 m => if src = "item[1]" then some (.dict (wireDict rnd m)) else none
+  | .t1 id p => if src = "item[1]" then some (.id id) else if src = "item[2]" then some (.dict (wireDict rnd p)) else none
+  | .t2 id p => if src = "item[1]" then some (.id id) else if src = "item[2]" then some (.dict (wireDict rnd p)) else none
+  | .t3 id p => if src = "item[1]" then some (.id id) else if src = "item[2]" then some (.dict (wireDict rnd p)) else none
+  | .t4 ids rows => if src = "item[1]" then some (.ids ids) else if src = "packed" then some (.packed (packedOf rnd fixed rows)) else none
+
+def slotsOf (rnd : Rat → Rat) (fixed : Bool) (tx : Tx) : List String → Option (List Slot)
+  | [] => some []
+  | s :: ss => match txSlot rnd fixed tx s, slotsOf rnd fixed tx ss with
+    | some a, some as => some (a :: as)
+    | _, _ => none
+
+/-- transaction tag → (record tag, the elements written after it) -/
+abbrev EncTable := List (String × String × List String)
+/-- record tag → (the variable the reader stores into, the elements `trx[k]` it reads) -/
+abbrev ResTable := List (String × String × List String)
+
+/-- the `if item[0] == T: yield encoder([tag, …])` dispatch of `TransactionEncode.filter`, driven by a table -/
+def encodeLine (tbl : EncTable) (rnd : Rat → Rat) (fixed : Bool) (tx : Tx) : Option Line :=
+  match tbl.lookup (txTag tx) with
+  | none => none                        -- no branch for this transaction: nothing is written
+  | some (tag, srcs) => match slotsOf rnd fixed tx srcs with
+    | some ss => some { tag := tag, slots := ss }
+    | none => none
+
+/-- the `if trx[0] == tag:` dispatch of `TransactionResult.filter`, driven by a table -/
+def decodeLine (tbl : ResTable) (l : Line) : Option Rec :=
+  match tbl.lookup l.tag with
+  | none => none                        -- no branch tests this tag: the line is ignored
+  | some (target, srcs) =>
+    if srcs = ["trx[1]"] then
+      match l.slots with
+      | [.dict d] => if target = "exp_dict" then some (.experiment d) else none
+      | _ => none
+    else if srcs = ["trx[1]", "trx[2]"] then
+      match l.slots with
+      | [.id i, .dict d] =>
+        if target = "env_rows" then some (.comp .E i d) else if target = "lrn_rows" then some (.comp .L i d)
+        else if target = "val_rows" then some (.comp .V i d) else none
+      | [.ids is, .packed p] => if target = "int_rows" then some (.inter is p.1 p.2) else none
+      | _ => none
+    else none
+
+def encodeLines (tbl : EncTable) (rnd : Rat → Rat) (fixed : Bool) : List Tx → Option (List Line)
+  | [] => some []
+  | tx :: txs => match encodeLine tbl rnd fixed tx, encodeLines tbl rnd fixed txs with
+    | some l, some ls => some (l :: ls)
+    | _, _ => none
+
+def decodeLines (tbl : ResTable) : List Line → Option (List Rec)
+  | [] => some []
+  | l :: ls => match decodeLine tbl l, decodeLines tbl ls with
+    | some r, some rs => some (r :: rs)
+    | _, _ => none
+
+/-- the tables the model's `encodeTx` / `Rec` correspond to (proved equal to the ones read off the source: `source_shapes_match`) -/
+def modelEncShapes : EncTable :=
+  [("T0", "experiment", ["item[1]"]), ("T1", "E", ["item[1]", "item[2]"]), ("T2", "L", ["item[1]", "item[2]"]),
+   ("T3", "V", ["item[1]", "item[2]"]), ("T4", "I", ["item[1]", "packed"])]
+def modelResShapes : ResTable :=
+  [("experiment", "exp_dict", ["trx[1]"]), ("E", "env_rows", ["trx[1]", "trx[2]"]), ("L", "lrn_rows", ["trx[1]", "trx[2]"]),
+   ("V", "val_rows", ["trx[1]", "trx[2]"]), ("I", "int_rows", ["trx[1]", "trx[2]"])]
+
+/-- a run's log written and read through the two tables -/
+def viaTables (rnd : Rat → Rat) (fe fr : Bool) (info : PyDict) (txs : List Tx) : Option (Except Err Result) :=
+  match encodeLines modelEncShapes rnd fe (.t0 info :: txs) with
+  | none => none
+  | some ls => match decodeLines modelResShapes ls with
+    | none => none
+    | some recs => some (readLog fr (Rec.version 4 :: recs))
+
 end Coba.C07
